@@ -50,6 +50,17 @@ def e2e_oracle(ctx: Ctx, cases: List[Dict[str, Any]], res: Result, region: str, 
     if not cases:
         return
     trig = rt_common.triggers_of(cases)
+    # how many operations lie in the region of the PROVED plain-selection theorem, how many are supported but
+    # covered by correspondence + oracle only, how many lie in a finding region
+    plain_lines = []
+    for c in cases:
+        env_, ops_ = rt_common.env_and_ops(c)
+        plain_lines.append({"op": "plainOK", **env_, "operations": ops_})
+    for t, flags in zip(trig, common.run_driver(rt_common.DRIVER, plain_lines)):
+        for ok in flags:
+            res.count("theorem-region:plain-selection (proved)" if ok and not t else
+                      "theorem-region:supported, unproved (correspondence + oracle only)" if not t else
+                      "theorem-region:inside a finding region")
     runs = engine.pmap_forked(e2e.run_case, [(rt_common.strip_case(c),) for c in cases], timeout=180)
     pyd_lines: List[Dict[str, Any]] = []
     pyd_index: List[Tuple[int, int, Any]] = []
